@@ -245,7 +245,7 @@ func (vm *VM) run() (Addr, bool) {
 
 		// Call
 		case OpCallFunc:
-			call := callFrame{cl: callable{fn: vm.fn, vars: vm.vars}, fp: vm.fp, pc: vm.pc + 1}
+			call := callFrame{cl: callable{fn: vm.fn, vars: vm.vars}, renderer: vm.renderer, fp: vm.fp, pc: vm.pc + 1}
 			fn := vm.fn.Functions[uint8(a)]
 			off := vm.fn.Body[vm.pc]
 			vm.fp[0] += Addr(off.Op)
@@ -276,7 +276,7 @@ func (vm *VM) run() (Addr, bool) {
 				startNativeGoroutine = false
 				vm.pc++
 			} else {
-				call := callFrame{cl: callable{fn: vm.fn, vars: vm.vars}, fp: vm.fp, pc: vm.pc + 1}
+				call := callFrame{cl: callable{fn: vm.fn, vars: vm.vars}, renderer: vm.renderer, fp: vm.fp, pc: vm.pc + 1}
 				fn := f.fn
 				off := vm.fn.Body[vm.pc]
 				vm.fp[0] += Addr(off.Op)
